@@ -135,7 +135,10 @@ func reqHandler(s *reqScenario) *connect.Handler {
 	if h, ok := reqHandlers.Load(key); ok {
 		return h.(*connect.Handler)
 	}
-	opts := []connect.HandlerOption{connect.WithInterceptors(countingInterceptor{})}
+	// two options documented as no-ops ride along: a compression registered with nil constructors (under the name
+	// the "unknown" scenarios send) and one with an empty name
+	opts := []connect.HandlerOption{connect.WithInterceptors(countingInterceptor{}),
+		connect.WithCompression("zstd-verif", nil, nil), connect.WithCompression("", newGzipD, newGzipC)}
 	for _, c := range s.Codecs {
 		if c == "verifc" {
 			opts = append(opts, connect.WithCodec(verifCodec{}))
